@@ -7,6 +7,7 @@ CONSTANTS
   MaxUmi = 2
   Indexes = {"single", "dual"}
   Limit = 60
+  Shapes = {"rr"}
   RequireSafe = FALSE
   Variant = "design"
 INVARIANT Inv_C04_QTotal
